@@ -28,10 +28,37 @@ TYPES = {
     None: (["x y", "1", "None", "Auto"], ["p", "q r", "'s t'", '"None"', "'Auto'", "None"], []),
 }
 
+# Lexical escapes inside value texts (opt-in: MasterGen(escapes=p) / SourceGen(escapes=p), p = share of the text-typed
+# values written this way).  The tokenizer un-escapes `\\` and `\<quote>` inside quoted words, the printer escapes them again and
+# the parser gives ONE unquoted backslash at the end of a line the meaning "the value goes on in the next line".  Every value
+# below is well-formed and prints/re-parses to itself; what they vary is where a backslash ends up after un-escaping:
+ESC_WORDS = [
+    '"\\\\"', "'\\\\'", '"""\\\\"""',          # a quoted word whose value IS one backslash, in each quote style
+    '"a\\\\"', '"C:\\\\d\\\\"', "'p q\\\\'",      # quoted words that contain / end in a backslash
+    '"\\\\\\\\"',                               # value = two backslashes
+    '"a\\"b"', "'it\\'s'", '"\\""',             # escaped quote characters
+    "a\\b", "a\\", "\\\\",                     # unquoted words with backslashes (never a lone one: that is the continuation)
+]
+ESC_TYPES = {"str": 2, "qstr": 3, "path": 1, "key": 1, "strings": 3, "words": 3, None: 3}      # type -> most words per value
+
+
+def esc_value(r, t):
+    """a value text for the text-like type t: 1..k words, at least one from ESC_WORDS, any of them possibly last, written on
+    one line or continued over two with the unquoted continuation backslash"""
+    k = r.randint(1, ESC_TYPES[t])
+    ws = [r.choice(ESC_WORDS) if r.random() < 0.7 else r.choice(["x", "'p q'", "z9"]) for _ in range(k)]
+    if not any(w in ESC_WORDS for w in ws):
+        ws[r.randrange(k)] = r.choice(ESC_WORDS)
+    if k > 1 and r.random() < 0.25:
+        j = r.randrange(1, k)
+        return " ".join(ws[:j]) + " \\\n      " + " ".join(ws[j:])
+    return " ".join(ws)
+
 
 class MasterGen:
     def __init__(self, rng, depth=2, multiples=True, nested_multiples=False, noncanonical=True, disabled=True,
-                 further=True, types=None, deprecated=False, reopen=None):
+                 further=True, types=None, deprecated=False, reopen=None, escapes=0):
+        self.escapes = escapes
         self.deprecated = deprecated
         self.reopen = (__import__("os").environ.get("VERIF_REOPEN") == "1") if reopen is None else reopen
         self.rng = rng
@@ -48,6 +75,8 @@ class MasterGen:
         t = r.choice(self.types)
         defaults = TYPES[t][0]
         dv = r.choice(defaults if self.noncanonical else defaults[:1])
+        if self.escapes and t in ESC_TYPES and r.random() < self.escapes:
+            dv = esc_value(r, t)
         mult = self.multiples and (self.nested_multiples or not in_multiple) and r.random() < 0.25
         opt = r.choice([None, None, True, False])
         if t and t.startswith("choice") and opt is False and "*" not in dv:
@@ -60,6 +89,8 @@ class MasterGen:
             node["deprecated_false"] = r.choice(["False", "false", "no", "0", "None"])
         if mult and self.further and not node["dis"] and r.random() < 0.4:
             node["further"] = [r.choice(TYPES[t][1] or [dv]) for _ in range(r.choice([1, 2]))]
+            if self.escapes and t in ESC_TYPES and r.random() < self.escapes:
+                node["further"][-1] = esc_value(r, t)
         if mult and self.disabled and not node["dis"] and r.random() < 0.25:
             # a commented-out example instance next to the declaration (`!name = value`): inert
             node["dis_further"] = [r.choice(TYPES[t][1] or [dv])]
@@ -168,7 +199,8 @@ def param_paths(nodes, prefix="", out=None, active_only=True):
 class SourceGen:
     """a source text for a master tree: values for some parameters, plus noise"""
 
-    def __init__(self, rng, valid_only=False, unknown=True, disabled=True, variables=False):
+    def __init__(self, rng, valid_only=False, unknown=True, disabled=True, variables=False, escapes=0):
+        self.escapes = escapes
         self.rng = rng
         self.valid_only = valid_only
         self.unknown = unknown
@@ -178,6 +210,8 @@ class SourceGen:
     def value_for(self, node):
         r = self.rng
         d, ok, bad = TYPES[node["type"]]
+        if self.escapes and node["type"] in ESC_TYPES and r.random() < self.escapes:
+            return esc_value(r, node["type"])
         if node["type"] and node["type"].startswith("choice") and r.random() < 0.85:
             alts = [w.lstrip("*") for w in node["default"].split()]
             k = r.random()
